@@ -70,6 +70,7 @@ type fnSpec struct {
 	extConsts    map[string]string // constants of package constants the function names -> their value (checked against constants/const.go)
 	builder      bool              // a method of a fluent builder: it returns its receiver (the chain goes on with the state it leaves); fields below the builder's protobuf are assigned in place; the protobuf is handed out only as proto.Clone of it
 	recvName     string            // (filled while translating) the receiver's name
+	mayHandOut   bool              // (builder) this method is the one that hands the builder's own struct out (AsResult)
 	constMaps    map[string]string // package-level map literals the function looks keys up in -> the Lean function generated from the literal
 }
 
@@ -1233,6 +1234,7 @@ func init() {
 	specs = append(specs, fluentBuilderSpecs...)
 	specs = append(specs, fluentModifySpecs...)
 	specs = append(specs, reconOpSpecs...)
+	specs = append(specs, fluentResultSpecs...)
 }
 
 // ---- the fluent builders (fluent/fluent.go)
@@ -1455,5 +1457,39 @@ var reconOpSpecs = func() []fnSpec {
 		mk("nhgOperation", "reconNhgOperation", "*aft.Afts_NextHopGroup", "rib.ConcreteNextHopGroupProto"),
 		mk("nhOperation", "reconNhOperation", "*aft.Afts_NextHop", "rib.ConcreteNextHopProto"),
 		mk("mplsOperation", "reconMplsOperation", "*aft.Afts_LabelEntry", "rib.ConcreteMPLSProto"),
+	}
+}()
+
+// ---- the fluent operation-result builder (fluent/fluent.go: OperationResult().With…().AsResult()),
+// with which tests and the compliance suite write down the results they expect
+
+var fluentResultSpecs = func() []fnSpec {
+	u64 := func(n string) param { return param{goName: n, goType: "uint64", lean: n, kd: kNat} }
+	str := func(n string) param { return param{goName: n, goType: "string", lean: n, kd: kStr} }
+	tm := map[string]string{"client.OpResult": "COpResult", "client.OpDetailsResults": "OpDetailsResults"}
+	m := func(goName, lean string, params []param) fnSpec {
+		return fnSpec{
+			file: "fluent/fluent.go", goName: goName, recvType: "*opResult", callAs: "-", leanName: lean,
+			params: params, goRets: "*opResult", rets: []string{},
+			state:   []stateField{{goExpr: "o.r", lean: "res", kd: kPtrNN("COpResult")}},
+			typeMap: tm, builder: true,
+		}
+	}
+	pr := m("WithProgrammingResult", "flRWithProgrammingResult", []param{{goName: "r", goType: "ProgrammingResult", lean: "r", kd: kInt}})
+	pr.constMaps = map[string]string{"programmingResultMap": "programmingResultMap"}
+	as := m("AsResult", "flRAsResult", nil)
+	as.goRets, as.rets, as.mayHandOut = "*client.OpResult", []string{"ptr:COpResult"}, true
+	return []fnSpec{
+		{file: "fluent/fluent.go", goName: "OperationResult", callAs: "-", leanName: "flNewOperationResult", goRets: "*opResult", rets: []string{"ptr:opResult"}, typeMap: tm},
+		m("WithCurrentServerElectionID", "flRWithCurrentServerElectionID", []param{w64("low"), w64("high")}),
+		m("WithSuccessfulSessionParams", "flRWithSuccessfulSessionParams", nil),
+		m("WithOperationID", "flRWithOperationID", []param{u64("i")}),
+		m("WithIPv4Operation", "flRWithIPv4Operation", []param{str("p")}),
+		m("WithIPv6Operation", "flRWithIPv6Operation", []param{str("p")}),
+		m("WithNextHopGroupOperation", "flRWithNextHopGroupOperation", []param{u64("i")}),
+		m("WithNextHopOperation", "flRWithNextHopOperation", []param{u64("i")}),
+		m("WithMPLSOperation", "flRWithMPLSOperation", []param{u64("i")}),
+		m("WithOperationType", "flRWithOperationType", []param{{goName: "c", goType: "constants.OpType", lean: "c", kd: kEnum}}),
+		pr, as,
 	}
 }()
